@@ -261,7 +261,7 @@ func (pm *pathManager) doReloadConf(newPaths map[string]*conf.Path) {
 			sameGroups := (len(pa.matches) <= 1 && len(newMatches) <= 1) || slices.Equal(pa.matches, newMatches)
 			if pathConfCanBeUpdated(oldPathConf, newPathConf) && sameGroups {
 				pa.confName = newPathConf.Name
-				go pa.reloadConf(newPathConf)
+				pa.reloadConf(newPathConf)
 				continue
 			}
 
@@ -278,7 +278,7 @@ func (pm *pathManager) doReloadConf(newPaths map[string]*conf.Path) {
 
 		// path configuration has changed but can be hot reloaded: reload it
 		if _, ok := confsToReload[newPathConf.Name]; ok {
-			go pa.reloadConf(newPathConf)
+			pa.reloadConf(newPathConf)
 		}
 	}
 
